@@ -46,7 +46,7 @@ FSM_RULE = ("Real MotionProcessor fed by a scripted parser; cases: (1) ~330 conf
             "(2) same configs x all strings of length 7 (thorough 10) x one disturbance {window closed, disk check fails, file creation fails, bad frame, reset} at every position; "
             "(3) seeded random scripts (50-2000 events, fps<=9, preview<=5, max<=12s, realistic 3/20 and 10/600 settings) with bad frames, resets and refusals, every fifth one additionally with failing post-trigger WriteFrame calls (5/30/100 %) and failing StopRecording calls (half that rate); (4) trigger-position sweep for cap 1..24.")
 FSM_ASSUME = COMMON_ASSUME + ["the driver aims at motion with a toggling hot pixel, but oracles take the observed MotionDetected callbacks as input"]
-FSM_JOB = {"pkg": "motion", "test": "TestVerif_FSM", "shards": (16, 16), "timeout": (300, 3000), "require": ["recordings", "motion_frames_observed", "post_trigger_write_faults", "stop_faults", "scripts_with_non_increasing_time_on"]}
+FSM_JOB = {"pkg": "motion", "test": "TestVerif_FSM", "shards": (16, 16), "timeout": (300, 3000), "require": ["recordings", "motion_frames_observed", "post_trigger_write_faults", "stop_faults", "scripts_with_non_increasing_time_on", "scripts_with_non_unique_frame_counter"]}
 
 TH_RULE = ("Real ThrottledRecorder (NewThrottledRecorderWithClock, fake clock) between a scripted caller and a monitor sink. Cases: (1) seeded random schedules from (Start Write* Stop)* with 5..6000 ops, "
            "bucket 1-60 s (and the shipped 600 s), refill 1 s..1 h, min+preview 1-20 s, fps 1-9, wrapped-start failure rate 0/10/40 %; (2) wrapped start failing at call index 0..11; "
@@ -85,7 +85,7 @@ PROPS = {
         "level_text": "Declarative end-of-recording formula evaluated against the observed MotionDetected callbacks and the sink trace; exhaustive motion patterns (every offset, the frame at the cap, min=0, max=min) for min,max<=3s x fps<=3, plus random scripts with realistic settings (3/20/9, 10/600/9).",
         "level_note": "Motion bits are the observed listener callbacks, so the oracle is decoupled from the detector.",
         "technique": "declarative trace oracle on monitor sinks + listener callbacks",
-        "jobs": [dict(FSM_JOB, require=FSM_JOB["require"] + ["recordings_with_pre_trigger_write_fault", "pre_trigger_fault_in_a_later_recording"])],
+        "jobs": [dict(FSM_JOB, require=FSM_JOB["require"] + ["recordings_with_pre_trigger_write_fault", "pre_trigger_fault_in_a_later_recording", "stalled_streams"])],
     },
     "C04": {
         "title": "A recording starts iff motion persisted, the window is open and storage is OK",
@@ -144,7 +144,8 @@ PROPS = {
         "level_text": "Reference-model monitor in lock-step with the real detector over boundary-biased random streams and the full mode matrix; judged per frame on the boolean verdict (the changed-pixel count is internal).",
         "level_note": "Pixel/threshold boundary cases are targeted by the generator, not enumerated.",
         "technique": "reference-model runtime monitor (lock-step differential)",
-        "jobs": [{"pkg": "motion", "test": "TestVerif_C07", "shards": (16, 16), "timeout": (300, 2400), "require": ["frames", "motion_frames", "frames_at_count_boundary", "streams_via_processor_api", "streams_via_detect", "blinking_blob_streams", "boson_sized_streams"]}],
+        "jobs": [{"pkg": "motion", "test": "TestVerif_C07", "shards": (16, 16), "timeout": (300, 2400), "require": ["frames", "motion_frames", "frames_at_count_boundary", "streams_via_processor_api", "streams_via_detect", "blinking_blob_streams", "boson_sized_streams"]},
+                 {"pkg": "motion", "test": "TestVerif_C07Config", "shards": (8, 16), "timeout": (300, 1800), "require": ["configs_loaded", "configs_with_wide_border"]}],
     },
     "C08": {
         "title": "Edge-border pixels and sub-threshold (cold) pixels never influence detection",
@@ -305,7 +306,7 @@ PROPS = {
         "level_text": "Offline trace checker for the continuous and test sinks plus paired-execution comparators (independence from motion, window, gates; motion recording undisturbed by requests), over a request-offset sweep and random scripts.",
         "level_note": "Throttling independence is structural here (the continuous sink is never wrapped); the pipeline job checks it through main.go's wiring.",
         "technique": "offline trace checker + paired-execution comparator on monitor sinks",
-        "jobs": [{"pkg": "motion", "test": "TestVerif_C17", "shards": (16, 16), "timeout": (300, 2400), "require": ["continuous_files", "test_recordings_completed", "test_recordings_overlapping_motion_recording"]},
+        "jobs": [{"pkg": "motion", "test": "TestVerif_C17", "shards": (16, 16), "timeout": (300, 2400), "require": ["test_recordings_while_continuous_sink_fails", "continuous_sink_failures", "continuous_files", "test_recordings_completed", "test_recordings_overlapping_motion_recording"]},
                  {"pkg": "recorder-main", "test": "TestVerif_C17Pipe", "shards": (8, 16), "timeout": (300, 1800), "require": ["pipeline_runs", "pipeline_continuous_files", "pipeline_test_recordings", "pipeline_runs_after_a_reconnect", "pipeline_runs_with_low_disk"]}],
     },
     "C18": {
@@ -321,7 +322,7 @@ PROPS = {
         "level_note": "Interleavings are sampled through hook-injected stalls and GOMAXPROCS variation, not enumerated.",
         "technique": "offline file checker + hook-based conservation monitor + Go race detector",
         "jobs": [{"pkg": "writer-main", "test": "TestVerif_C18", "race": True, "shards": (16, 16), "gomaxprocs": [1, 2, 4, 16], "timeout": (900, 3000), "hang_is_violation": True,
-                  "require": ["connections", "frames_verified", "buffers_recycled", "runs_reaching_256_in_flight", "overlapping_connection_pairs"]},
+                  "require": ["connections_with_segments_ignoring_frame_boundaries", "connections", "frames_verified", "buffers_recycled", "runs_reaching_256_in_flight", "overlapping_connection_pairs"]},
                  {"pkg": "writer-main", "test": "TestVerif_C18Names", "race": True, "shards": (8, 16), "timeout": (600, 1800), "require": ["shared_directory_runs", "connections_into_shared_directory"]},
                  {"pkg": "writer-main-fastrotate", "test": "TestVerif_C18Rotate", "race": True, "shards": (4, 8), "timeout": (600, 1800), "hang_is_violation": True,
                   "require": ["runs_crossing_file_rotation", "frames_verified"]}],
@@ -368,7 +369,7 @@ ARCH32 = {
     "C04": ["TestVerif_FSM", "TestVerif_C04Window", "TestVerif_C04Pipe"],
     "C05": ["TestVerif_Throttle", "TestVerif_C05ClockStep", "TestVerif_ThrottleComposition"],
     "C06": ["TestVerif_Throttle", "TestVerif_ThrottleComposition"],
-    "C07": ["TestVerif_C07"], "C08": ["TestVerif_C08"], "C09": ["TestVerif_C09"],
+    "C07": ["TestVerif_C07", "TestVerif_C07Config"], "C08": ["TestVerif_C08"], "C09": ["TestVerif_C09"],
     "C10": ["TestVerif_C10"],
     "C11": ["TestVerif_C11"],
     "C12": ["TestVerif_C12", "TestVerif_C12Pipe"],
